@@ -20,7 +20,7 @@ func fgN() int {
 	if n, err := strconv.Atoi(os.Getenv("FG_N")); err == nil && n > 0 {
 		return n
 	}
-	return 3000
+	return 12000
 }
 
 func fgOpts(v primitive.ProtocolVersion, seed int) GenOpts {
